@@ -30,6 +30,19 @@ theorem c10_linearizable_sees_acknowledged (rep : Replica) (r : Request)
       simp [hk, hro]
   rw [hp]; exact hw
 
+/-- **the routing looks at nothing else**: key, range end, limit, keys-only and count-only of the
+request play no part in the choice of the read path, so the statement above holds for every flag
+variant of a read (C10-g regression: a linearizable count-only read answered locally) -/
+theorem c10_path_ignores_range_fields (r : Request) (q : Option RangeReq) :
+    path { r with range := q } = path r := by
+  unfold path Request.readonlyTxn
+  cases r.kind <;> rfl
+
+theorem c10_linearizable_every_variant (rep : Replica) (q : RangeReq) (it : Bool)
+    (w : Nat) (hw : w ≤ rep.committed) :
+    w ≤ observedAt rep (path { kind := if it then .iterate else .range, linearizable := true, range := some q }) := by
+  cases it <;> exact hw
+
 /-- **every read-only transaction takes the consensus read**, with or without comparisons, whatever
 its ranges ask for -/
 theorem c10_readonly_txn_path (r : Request) (hk : r.kind = .txn) (hs : readonlyOps r.success = true)
